@@ -513,8 +513,10 @@ func (e *Env) evalIndex(x *EIndex) Val {
 	if v.Ty != nil {
 		switch t := v.Ty.Underlying().(type) {
 		case *types.Map:
+			// Go semantics: the zero value when the key is absent (or the map is nil)
 			vals := u.mapVals(e.cur, v.Ty, v.T)
-			return Val{T: Select(vals, i.T), Ty: t.Elem()}
+			dom := u.mapDom(e.cur, v.Ty, v.T)
+			return e.typed(Val{T: Ite(And(Not(Eq(v.T, IntN(0))), Select(dom, i.T)), Select(vals, i.T), u.g.reg.Zero(t.Elem())), Ty: t.Elem()})
 		case *types.Slice:
 			return Val{T: Select(u.g.reg.SlData(v.T), i.T), Ty: t.Elem()}
 		case *types.Array:
@@ -630,7 +632,7 @@ func (e *Env) evalCall(x *ECall) Val {
 			return spec(SlLen(v.T))
 		}
 		if v.T.Sort == SStr {
-			return spec(App(SInt, "strlen", v.T))
+			return spec(reg.StrLen(v.T))
 		}
 		if v.isDom || (v.Ty == nil && strings.HasPrefix(string(v.T.Sort), "(Array ")) {
 			return spec(App(SInt, reg.CardFun(v.T.Sort), v.T))
@@ -722,7 +724,7 @@ func (e *Env) evalCall(x *ECall) Val {
 		for i, prm := range p.Params {
 			v := e.eval(x.Args[i])
 			switch prm.Type {
-			case "Int", "Bool", "Str", "IntSet", "StrSet", "Set":
+			case "Int", "Bool", "Str", "IntSet", "StrSet", "Set", "Iface":
 			default:
 				pe := &Env{u: u, pkgPath: n.pkgPath}
 				v.Ty = pe.resolveType(prm.Type)
